@@ -40,15 +40,24 @@ func c06cliRun(m *rm.Tree, keep map[string]bool, mode string) (cs c06cliCase, ke
 	args := []string{"prune", "-i", "@/in.nw"}
 	switch mode {
 	case "args":
-		args = append(args, append(append([]string{}, dropL...), "notatip", "x9")...)
+		// x9 (a tip of the second tree only) and a name that is in no tree come FIRST: what is ignored for one tree still counts for the next
+		args = append(args, append([]string{"x9", "notatip"}, dropL...)...)
 	case "args-revert":
-		args = append(append(args, "-r"), append(keepL, "notatip")...)
+		args = append(append(args, "-r"), append([]string{"x9", "notatip"}, keepL...)...)
 	case "tipfile":
-		files["tips.txt"] = strings.Join(append(append([]string{}, dropL...), "notatip", "x9"), "\n") + "\n"
+		files["tips.txt"] = strings.Join(append([]string{"x9", "notatip"}, dropL...), "\n") + "\n"
 		args = append(args, "-f", "@/tips.txt")
 	case "tipfile-commas-revert":
 		files["tips.txt"] = strings.Join(keepL, ",") // no newline at the end of the file
 		args = append(args, "-f", "@/tips.txt", "-r")
+	case "tipfile-long-line-crlf":
+		// one comma-separated line of more than 64 KiB (names that are not in the tree are ignored), CR LF line ends, every name twice
+		var pad []string
+		for i := 0; i < 9000; i++ {
+			pad = append(pad, fmt.Sprintf("zq%05d", i))
+		}
+		files["tips.txt"] = strings.Join(append(append(pad, dropL...), "x9"), ",") + "\r\n" + strings.Join(append(append([]string{}, dropL...), "x9"), "\r\n") + "\r\n"
+		args = append(args, "-f", "@/tips.txt")
 	case "comp":
 		// the compared tree holds the tips to keep plus taxa of its own: tips specific to the input tree are removed
 		// its own taxa sit under an inner node labelled like a tip that is to be removed: a label is not a tip
@@ -75,7 +84,7 @@ func c06cliRun(m *rm.Tree, keep map[string]bool, mode string) (cs c06cliCase, ke
 	for k, v := range keep {
 		keep2[k] = v
 	}
-	if mode == "comp-revert" {
+	if mode == "comp-revert" || mode == "args-revert" {
 		keep2["x9"] = true
 	}
 	refs := []*c06ref{c06expect(m, keep), c06expect(m2, keep2)}
@@ -127,6 +136,9 @@ func c06cli(c *Ctx) {
 							return
 						}
 						modes = []string{"comp-revert"}
+					}
+					if n == 4 || mask%5 == 1 {
+						modes = append(modes, "tipfile-long-line-crlf")
 					}
 					for _, mode := range modes {
 						if !c.Mine() {
